@@ -38,6 +38,7 @@ DstInputs(c, xs, xd, cats) ==
   \cup (IF "ack" \in cats THEN {Fsm(DAck(h, "FIN"))} ELSE {})
   \cup (IF "poll" \in cats THEN {Fsm(None)} ELSE {})
   \cup (IF "tick" \in cats THEN {[k |-> "tick", a |-> [dt |-> 1000], w |-> FALSE]} ELSE {})
+  \cup (IF "tick400" \in cats THEN {[k |-> "tick", a |-> [dt |-> 400], w |-> FALSE]} ELSE {})
   \cup (IF "cancel" \in cats THEN {[k |-> "cancel", a |-> [t |-> "cancel", right |-> TRUE], w |-> FALSE]} ELSE {})
   \cup (IF "cancelwrong" \in cats THEN {[k |-> "cancel", a |-> [t |-> "cancel", right |-> FALSE], w |-> FALSE]} ELSE {})
   \cup (IF "alien" \in cats THEN
@@ -63,6 +64,7 @@ SrcInputs(c, xs, xd, cats) ==
                                   Put(SReq(c, TRUE, TRUE, "UNACK", "true")), Put(SReq(c, TRUE, TRUE, "ACK", "false"))} ELSE {})
   \cup (IF "poll" \in cats THEN {Fsm(None)} ELSE {})
   \cup (IF "tick" \in cats THEN {[k |-> "tick", a |-> [dt |-> 1000], w |-> FALSE]} ELSE {})
+  \cup (IF "tick400" \in cats THEN {[k |-> "tick", a |-> [dt |-> 400], w |-> FALSE]} ELSE {})
   \cup (IF "nak" \in cats THEN { Fsm([h |-> h, t |-> "NAK", sos |-> 0, eos |-> n, reqs |-> rq]) :
                                  rq \in { << <<0, 0>> >>, << <<0, 1>> >>, << <<0, 0>>, <<1, n>> >>, << <<1, 2>>, <<0, 1>> >> } } ELSE {})
   \cup (IF "nakodd" \in cats THEN { Fsm([h |-> h, t |-> "NAK", sos |-> 0, eos |-> n, reqs |-> rq]) :
